@@ -4,7 +4,7 @@
 import ast, json, os, sys
 sys.path.insert(0, os.path.dirname(os.path.dirname(os.path.abspath(__file__))))
 from sa.model import Model
-from sa.reflocals import ordered_locals
+from sa.reflocals import ordered_locals, single_compares, compare_text
 
 m = Model(canonical_locals=False)
 out = {}
@@ -17,3 +17,13 @@ for q, f in sorted(m.funcs.items()):
 p = os.path.join(os.path.dirname(os.path.dirname(os.path.abspath(__file__))), "spec", "reference_locals.json")
 json.dump(out, open(p, "w"), indent=0, sort_keys=True)
 print(len(out), "functions with locals recorded")
+outc = {}
+for q, f in sorted(m.funcs.items()):
+    if f.parent is not None or isinstance(f.node, ast.Lambda):
+        continue
+    cs = [compare_text(n) for n in single_compares(f.node)]
+    if cs:
+        outc[q] = cs
+pc = os.path.join(os.path.dirname(os.path.dirname(os.path.abspath(__file__))), "spec", "reference_compares.json")
+json.dump(outc, open(pc, "w"), indent=0, sort_keys=True)
+print(len(outc), "functions with comparisons recorded")
